@@ -116,6 +116,11 @@ func run(c mon.Case) mon.Result {
 		return runLin(d)
 	case "seq":
 		return runSeq(d)
+	case "race-report", "race-log":
+		// synthetic cases added by Post; replaying one means: run a stress workload again and let
+		// Post read the race log of the replay
+		return runStress(Desc{Kind: "stress", Seed: 20, Chunks: 30000, Burst: 16, BurstSleepUs: 1, PYieldPm: 20, CYieldPm: 20,
+			ReqPm: 150, DepthPm: 100, AllPm: 100, Tail: true, ProdDepthPm: 200, MaxPayload: 8})
 	}
 	return mon.Result{Verdict: mon.Inconclusive, Detail: "unknown case kind " + d.Kind}
 }
